@@ -4,8 +4,8 @@
    gen/AssertSites.v (regenerated from the goflow source on every run).
    [tx] is the expression refactoring Migrate13_3 applies (refactor.Template): every theorem holds for any function. *)
 From Coq Require Import List NArith Bool String.
-From Verif Require Import lib.Json gen.MigrationTable gen.AssertSites model.Migrate model.MigrateSites
-  proofs.MigrateProofs proofs.MigrateSitesProofs.
+From Verif Require Import lib.Json gen.MigrationTable gen.AssertSites model.Migrate model.MigrateValid model.MigrateSites
+  proofs.MigrateProofs proofs.MigrateValidProofs proofs.MigrateStepwiseProofs proofs.MigrateRewriteProofs proofs.MigrateSitesProofs.
 Import ListNotations.
 
 (* a definition already at the current version (or newer) is returned untouched: the very input, no UUID drawn *)
@@ -39,12 +39,68 @@ Theorem c16_idempotent : forall tx j fresh j' fresh',
 Proof. exact idempotent. Qed.
 Print Assumptions c16_idempotent.
 
+(* stepwise = direct: migrating to an intermediate target v1 and then on to a target at or beyond v1 (or to the latest
+   version) gives exactly what migrating there in one go gives -- same tree, same UUIDs drawn in the same order; when the
+   second hop has nothing left to do it returns its input, which is then the direct result *)
+Theorem c16_stepwise_eq_direct : forall tx j v1 to2 fresh j1 fresh1,
+  match to2 with Some t => vle v1 t = true | None => True end ->
+  migrate_to tx j (Some v1) fresh = (MOut j1, fresh1) ->
+  migrate_to tx j to2 fresh
+  = match migrate_to tx j1 to2 fresh1 with (MSame, _) => (MOut j1, fresh1) | r => r end.
+Proof. exact stepwise_eq_direct. Qed.
+Print Assumptions c16_stepwise_eq_direct.
+
 (* the flow's uuid, its nodes in their order (entry node first), every node's uuid and its whole exits array (every
    exit uuid and destination) are the same JSON before and after -- for every definition, valid or not *)
 Theorem c16_graph_preserved : forall tx j to fresh j' fresh',
   migrate_to tx j to fresh = (MOut j', fresh') -> graph j' = graph j.
 Proof. exact graph_preserved. Qed.
 Print Assumptions c16_graph_preserved.
+
+(* a definition that is valid at its version (model/MigrateValid.v: the current reader's checks on the members migrations
+   write, minus what later migrations establish) loads at the current version after MigrateToLatest.
+   PARTIAL: the hypothesis is the strict variant, which in addition wants the result_name of call_classifier,
+   call_resthook, call_webhook, open_ticket and transfer_airtime actions within the 64 characters of 13.6 already in the
+   source.  Missing for the full statement: Migrate13_6 does not shorten those (finding F12, see c16_valid_after_refuted).
+   Satisfiable: proofs/MigrateValidProofs.v, Example valid_after_applies. *)
+Theorem c16_valid_after_partial : forall tx j fresh j' fresh',
+  valid_source_with true j = true ->
+  migrate_to_latest tx j fresh = (MOut j', fresh') ->
+  valid_current j' = true.
+Proof. exact valid_after. Qed.
+Print Assumptions c16_valid_after_partial.
+
+(* the full statement is false of the code as it is: a definition valid at 13.5 whose migrated form the reader refuses *)
+Theorem c16_valid_after_refuted :
+  exists j, valid_source j = true
+    /\ match fst (migrate_to_latest (fun x => x) j []) with MOut j' => valid_current j' = false | _ => False end.
+Proof. exact valid_after_refuted. Qed.
+Print Assumptions c16_valid_after_refuted.
+
+(* templates preserved, PARTIAL: Migrate13_3 changes a definition's nodes (and every member other than `localization`)
+   only through the refactoring function it applies -- with the identity in its place everything comes back as it was.
+   Missing for the full statement: (i) that refactor.Template's output evaluates like its input with @webhook read as
+   @webhook.json is property C11's subject, not modelled here; (ii) that the catalogue reaches every template position
+   (it does not reach translations of a member the base object lacks: known finding) is checked on the implementation
+   by the direct oracle (every text of nodes and localization evaluated before and after the step to 13.3). *)
+Theorem c16_templates_preserved_partial : forall fresh f k,
+  k <> k_localization -> olookup k (fst (migrate_13_3 idtx fresh f)) = olookup k f.
+Proof. exact migrate_13_3_only_through_tx. Qed.
+Print Assumptions c16_templates_preserved_partial.
+
+(* finite obligation behind c16_valid_after_partial, over the generated template catalogue: no path Migrate13_3 rewrites
+   starts at, or below `templating` reaches, a member that valid_current looks at *)
+Theorem c16_catalog_frame : catalog_frame = true.
+Proof. exact catalog_frame_true. Qed.
+Print Assumptions c16_catalog_frame.
+
+(* finite obligation behind c16_valid_after_partial, over the generated registration table and for every source version:
+   the functions MigrateToLatest selects, in their order, establish every requirement of the current version *)
+Theorem c16_latest_establishes_all : forall from,
+  run_flags (map snd (select_versions registered from None)) (vle v13_2 from, vle v13_5 from, vle v13_6 from)
+  = Some (true, true, true).
+Proof. exact latest_flags. Qed.
+Print Assumptions c16_latest_establishes_all.
 
 (* finite obligations over the registration table generated from the source *)
 Theorem c16_registered_known : registered_known = true.
